@@ -343,6 +343,10 @@ def valid_case(case):
             return False
         # the recorded facts must still describe the program
         txt = json.dumps(case["steps"])
+        import re as _re
+        names = [o[0] for o in case["occ"]]
+        if len(set(names)) != len(names) or any(not _re.fullmatch(r"f[0-9]+", n) for n in names):
+            return False
         if any('"%s"' % o[0] not in txt for o in case["occ"]):
             return False
         declared = [s[1][0][1] for s in case["steps"] if s[0] in ("from_", "into", "update") and s[1] and s[1][0][0] == "src"] + [s[1][0][1] for s in case["steps"] if s[0] == "join"]
